@@ -62,6 +62,9 @@ async fn scenario(a: &ShardArgs, idx: u64) {
     } else {
         *r.pick(&[0u64, 30, 500, 5000])
     };
+    // READ requests with up to this many object headers are served in full, deferred or not
+    cfg.max_read_headers = if r.chance(1, 3) { Some(*r.pick(&[65u16, 80, 128])) } else { None };
+    let header_cap = cfg.max_read_headers.unwrap_or(64) as u64;
     cfg.decode = r.usize_below(108);
     cfg.unsol_tx = *r.pick(&[249usize, 2048]);
     cfg.discard = r.bool();
@@ -271,7 +274,18 @@ async fn scenario(a: &ShardArgs, idx: u64) {
             }
             6 => {
                 seq = (seq + 1) & 15;
-                let (rq, nstat, what) = match r.below(3) {
+                let (rq, nstat, what) = match r.below(4) {
+                    3 => {
+                        // as many one-point headers as the configuration admits (or a few less)
+                        let n = r.range(header_cap - 5, header_cap) as usize;
+                        let mut b = ra::B::request(ra::F_READ, seq);
+                        for k in 0..n {
+                            let i = ((k * 4) % 9) as u8;
+                            b = b.range8(30, 0, i, i, &[]);
+                        }
+                        out::count("U7_reads_with_headers_up_to_the_limit", 1);
+                        (b.done(), n, "g30v0 one point per header, many headers")
+                    }
                     0 => (
                         ra::B::request(ra::F_READ, seq).all(60, 1).done(),
                         9usize,
